@@ -324,13 +324,19 @@ fn main_seq_inner(dispatch: Dispatch, args: Vec<String>) {
     // Every input is parsed out of ONE reused buffer (like a line buffer in a read loop): consecutive parses see
     // different text at the same address, so hidden state keyed by pointer / surviving a parse shows up as a
     // wrong result on a later input.
-    let mut buf = String::with_capacity(cases.iter().map(|c| c.input.len()).max().unwrap_or(0) + 8);
+    let mut buf = String::with_capacity(cases.iter().map(|c| c.input.len()).max().unwrap_or(0) + 16);
     for (i, c) in cases.iter().enumerate() {
         if i < skip {
             continue;
         }
+        // ... and at a different offset inside that buffer each time (0..7 filler bytes in front): the same text is seen
+        // at every alignment over the runs of a check, so anything that depends on the address of the input shows up
+        // as a result that differs between runs or from the reference evaluation
+        let off = (i * 3 + c.input.len()) % 8;
         buf.clear();
+        buf.push_str(&"########"[..off]);
         buf.push_str(&c.input);
+        let buf = &buf[off..];
         for (bit, mode) in [(1, Mode::Noop), (2, Mode::Rec), (4, Mode::Indented)] {
             if c.modes & bit == 0 {
                 continue;
